@@ -79,6 +79,9 @@ var Scripts = map[string]string{
 	"meta-read": "vars {\n  account $dst = meta(@bank, \"partner\")\n}\nsend [EUR 3] (\n  source = @world\n  destination = $dst\n)",
 	"all":       "send [USD/2 *] (\n  source = @users:001\n  destination = @bank\n)",
 	"bad":       "send [USD/2 10] (\n  source = \n",
+	// two sources: when @bank covers the amount, @fees is locked (GetBalances inserts its
+	// (0,0) accounts_volumes row) but not used: a zero row the import never creates
+	"two-src": "send [USD/2 1] (\n  source = {\n    @bank\n    @fees\n  }\n  destination = @users:001\n)",
 }
 
 var ScriptNames = func() []string {
